@@ -131,6 +131,18 @@ func refMatch(matcher, line string) []int {
 			return nil
 		}
 		return []int{i, len(line), i + 1, len(line)}
+	case "dissect-ic": // a%{x}b%{y}, ignore-case: first 'a', x up to the first following 'b', y the rest
+		low := strings.ToLower(line) // ASCII only in the harness's inputs
+		i := strings.IndexByte(low, 'a')
+		if i < 0 {
+			return nil
+		}
+		j := strings.IndexByte(low[i+1:], 'b')
+		if j < 0 {
+			return nil
+		}
+		j += i + 1
+		return []int{i, len(line), i + 1, j, j + 1, len(line)}
 	default:
 		return []int{0, len(line)}
 	}
@@ -294,6 +306,12 @@ func buildMatcher(name string) matchers.Factory {
 		return matchers.ToFactory(fastregex.MustCompile(`(a+)|(b)`))
 	case "dissect":
 		return matchers.ToFactory(dissect.MustCompile("a%{x}"))
+	case "dissect-ic":
+		d, err := dissect.CompileEx("a%{x}b%{y}", true)
+		if err != nil {
+			panic(err)
+		}
+		return matchers.ToFactory(d)
 	}
 	return &matchers.AlwaysMatch{}
 }
@@ -693,6 +711,7 @@ var shapes = []string{
 	"b\nb\naaaaa\nb", // 9
 	"a\nb\na\nb\na\nb\na\nb\n",                   // 10: eight one-line batches from one worker (more than the match channel holds)
 	"a\nb\nb\na\na\nb\nb\na\na\nb\nb\na\na\nb\nb\na\n", // 11: eight two-line batches
+	"Ab\naaB\nabb\nAB\n",                               // 12: lines for the ignore-case dissect pattern a%{x}b%{y}
 }
 
 type logic struct{ matcher, extract, ignore string }
@@ -772,6 +791,7 @@ func configs(prop, tier string) []*Config {
 		// unsynchronised matcher scratch shared between workers is only visible to
 		// the race detector: dissect instances own an int pool
 		add(Config{Path: "reader", Sources: []string{shapes[8]}, Matcher: "dissect", Extract: exFull, Batch: 1, Workers: 2, Readers: 1, Buffer: 1, Agg: true})
+		add(Config{Path: "reader", Sources: []string{shapes[12]}, Matcher: "dissect-ic", Extract: exFull, Batch: 1, Workers: 2, Readers: 1, Buffer: 1, Agg: true})
 		return out
 	}
 	if prop == "C06" {
@@ -887,6 +907,10 @@ func configs(prop, tier string) []*Config {
 	}
 	add(Config{Path: "reader", Sources: []string{shapes[8]}, Matcher: "dissect", Extract: exFull, Batch: 1, Workers: 2, Readers: 1, Buffer: 2})
 	add(Config{Path: "reader", Sources: []string{shapes[8]}, Matcher: "re", Extract: exFull, Batch: 1, Workers: 0, Readers: 1, Buffer: 1})
+	// ignore-case dissect with two literals: whatever the compiled pattern keeps
+	// for folding lines is shared by the instances of all workers
+	add(Config{Path: "reader", Sources: []string{shapes[12]}, Matcher: "dissect-ic", Extract: exFull, Batch: 1, Workers: 2, Readers: 1, Buffer: 1})
+	add(Config{Path: "reader", Sources: []string{shapes[12]}, Matcher: "dissect-ic", Extract: exFull, Batch: 2, Workers: 2, Readers: 1, Buffer: 2})
 	// more batches from one worker than the match channel (capacity 5) holds,
 	// while the consumer keeps every batch it received: a worker that recycles
 	// its match slices overwrites what the consumer still holds
